@@ -14,6 +14,7 @@ c08race are supporting evidence only).
 import Verif.Lemmas.StateCacheConc
 import Verif.Lemmas.StateCacheWitness
 import Verif.Gen.StateCacheFacts
+import Verif.Gen.LockFacts
 namespace Verif.Props.C08
 open Verif.SC
 
@@ -112,6 +113,34 @@ theorem commit_serial {c : Conc K B V} {T : Tree K B V} (hI : Inv c.sc T none) (
     `start` and releases it at `done` — and `StateCache.Get` takes no lock — the model's readers never block. -/
 theorem commit_lock_facts :
     Verif.Gen.StateCacheFacts.commitLocksWholeBody = true ∧ Verif.Gen.StateCacheFacts.getTakesNoLock = true := by
+  decide
+
+/-- a method takes the named mutex as its first statement, in the given mode, keeps it to the end of its body, and every
+    access it makes to a field of its receiver happens under it -/
+def holdsForWholeBody (m : Verif.Gen.LockFacts.Method) (mode : Verif.Gen.LockFacts.LockMode) (mutex : String) : Bool :=
+  m.lock == mode && m.mutex == mutex && m.preStmts == 0 && m.postStmts == 0 && m.sections == 1 &&
+  m.accesses.all (fun a => a.mode == mode)
+
+/-- `layer_lock_facts` (table regenerated by go/extract from the tree under test on every run): every method of the block
+    and transaction caches that touches their mutable state holds the cache's own mutex for its whole body —
+    `BlockCache.Get/Set/setValue/remove/SetBlockHash` hold `mu` (so `committed`, `blockHash`, `prevBlockHash` and the
+    pending map are never read while `commit` or `SetBlockHash` writes them), `TransactionCache.Set/Remove/Commit` hold
+    `mu` exclusively and `Get` shared; `StateCache.commit` holds `lock` exclusively from its first statement (deferred
+    unlock) for every access to the state cache's fields; `StateCache.Get` takes no lock (the model's readers never block).
+    The model treats every block / transaction cache operation as one atomic step on the strength of this table. -/
+theorem layer_lock_facts :
+    holdsForWholeBody Verif.Gen.LockFacts.blockCache_Get .write "mu" = true ∧
+    holdsForWholeBody Verif.Gen.LockFacts.blockCache_Set .write "mu" = true ∧
+    holdsForWholeBody Verif.Gen.LockFacts.blockCache_setValue .write "mu" = true ∧
+    holdsForWholeBody Verif.Gen.LockFacts.blockCache_remove .write "mu" = true ∧
+    holdsForWholeBody Verif.Gen.LockFacts.blockCache_SetBlockHash .write "mu" = true ∧
+    holdsForWholeBody Verif.Gen.LockFacts.transactionCache_Set .write "mu" = true ∧
+    holdsForWholeBody Verif.Gen.LockFacts.transactionCache_Remove .write "mu" = true ∧
+    holdsForWholeBody Verif.Gen.LockFacts.transactionCache_Commit .write "mu" = true ∧
+    holdsForWholeBody Verif.Gen.LockFacts.transactionCache_Get .read "mu" = true ∧
+    holdsForWholeBody Verif.Gen.LockFacts.stateCache_commit .write "lock" = true ∧
+    Verif.Gen.LockFacts.stateCache_commit.deferred = true ∧
+    Verif.Gen.LockFacts.stateCache_Get.lock = .none := by
   decide
 
 /-- the premise `Inv c.sc T none` is what any sequential history without eviction establishes -/
